@@ -1,3 +1,7 @@
 pub mod go_clean;
 pub mod invariants;
+pub mod ops;
+pub mod ref_abs;
+pub mod ref_mode;
+pub mod reffs;
 pub mod tree;
